@@ -48,6 +48,7 @@ func cmdCheck(args []string) int {
 		fmt.Fprintln(os.Stderr, "govc: no claims for", prop, ":", err)
 		return 2
 	}
+	env.Claimed = cf.IsClaimed
 	os.RemoveAll(env.Work)
 	os.MkdirAll(env.Work, 0o755)
 	defer os.RemoveAll(env.Work)
